@@ -4,12 +4,13 @@ from collections.abc import (
     AsyncIterator,
     Callable,
     Coroutine,
+    Generator,
     Iterable,
 )
 from contextlib import aclosing
 from contextvars import Context, copy_context
 from logging import Logger
-from types import TracebackType
+from types import TracebackType, coroutine
 from typing import Any, final
 
 from haiway.context.disposables import Disposable, Disposables
@@ -152,6 +153,64 @@ class ScopeContext:
                         exc_val=exc_val,
                         exc_tb=exc_tb,
                     )
+
+
+@coroutine
+def _within_context[Result](
+    context: Context,
+    awaited: Coroutine[Any, Any, Result],
+    /,
+) -> Generator[Any, Any, Result]:
+    # drive the coroutine making each of its steps within the given context
+    # instead of the context of a task which awaits it
+    value: Any = None
+    error: BaseException | None = None
+    while True:
+        try:
+            if error is None:
+                yielded: Any = context.run(awaited.send, value)
+
+            else:
+                yielded = context.run(awaited.throw, error)
+
+        except StopIteration as exc:
+            return exc.value
+
+        try:
+            value = yield yielded
+            error = None
+
+        except GeneratorExit:
+            awaited.close()
+            raise
+
+        except BaseException as exc:
+            value = None
+            error = exc
+
+
+@final
+class _ContextStream[Result]:
+    def __init__(
+        self,
+        context: Context,
+        generator: AsyncGenerator[Result, None],
+    ) -> None:
+        self._context: Context = context
+        self._generator: AsyncGenerator[Result, None] = generator
+
+        freeze(self)
+
+    def __aiter__(self) -> AsyncIterator[Result]:
+        return self
+
+    def __anext__(self) -> Coroutine[Any, Any, Result]:
+        # the generator runs within the context it was prepared for - context of the consumer
+        # (possibly an another task) is neither visible to the generator nor affected by it
+        return _within_context(self._context, self._generator.__anext__())  # pyright: ignore
+
+    def aclose(self) -> Coroutine[Any, Any, None]:
+        return _within_context(self._context, self._generator.aclose())  # pyright: ignore
 
 
 @final
@@ -324,8 +383,11 @@ class ctx:
                     async for result in results:
                         yield result
 
-        # finally return it as an iterator
-        return context_snapshot.run(generator)
+        # finally return it as an iterator making each step within the prepared context
+        return _ContextStream(
+            context_snapshot,
+            context_snapshot.run(generator),
+        )
 
     @staticmethod
     def check_cancellation() -> None:
